@@ -36,6 +36,8 @@ class Module:
                 q = prefix + node.name
                 # property setters share the name: index as name.setter
                 deco = [ast.unparse(d) for d in node.decorator_list]
+                if any(d in ("overload", "typing.overload") for d in deco):
+                    continue  # a typing stub, not the definition that runs
                 if any(d.endswith(".setter") for d in deco):
                     q = q + ".setter"
                 self.defs.setdefault(q, node)
